@@ -234,6 +234,7 @@ def _limits(case):
             s_ = info["sum"]
             if not (float(s_).is_integer() and int(s_) == m["total"]):
                 return dict(what, mismatch=True, what_differs="sum attribute", impl=_exact_int(s_), model=m["total"], stored=got,
+                            impl_outcome=got, sum_impl=float(s_),
                             note="the recorded total is not the sum of the input totals")
         return {"stats": {"exact": 1}}
     finally:
@@ -844,6 +845,15 @@ def classify(name, case, res, findings):
                   in_types=[_VT[t] for t in ins], out=None if case["out"] is None else _VT[case["out"]])
     if not b["applicable"] or b["outcome"] != res["impl_outcome"]:
         return None
+    if res.get("what_differs") == "sum attribute":
+        # D33 again: the epoch's chunk being float64, write_pixels accumulates the `sum` attribute in float64 as well. Recognised
+        # only under D33's own signature, with every stored value equal to the as-built oracle, and the recorded total within
+        # float64 accumulation error (one rounding per stored value) of the exact total
+        n_vals = max(1, len(res["impl_outcome"]))
+        tot = res["model"]
+        ok = ("uint64" in ins and any(t in _INTS and not t.startswith("u") for t in ins)
+              and abs(res["sum_impl"] - tot) <= n_vals * 2.0 ** -52 * max(1.0, abs(float(tot))))
+        return "D33" if ok and any(f["id"] == "D33" for f in findings) else None
     fid = None
     if b["float"]:
         if "uint64" in ins and any(t in _INTS and not t.startswith("u") for t in ins):
@@ -873,6 +883,10 @@ def cases(tier, rng):
     # corpus: D6 witnesses (empty epochs) and D8 (overflow)
     yield "merge", {"n": 4, "symm": True, "inputs": [[[2, 2, 1], [2, 3, 1]], [[2, 2, 5], [2, 3, 2], [3, 3, 1]]]}
     yield "merge", {"n": 3, "symm": True, "inputs": [[], []]}
+    # D33 through the `sum` attribute only: uint64 next to int64, every stored value exact, the total accumulated in float64
+    yield "limits", {"n": 7, "inputs": [[[2, 3, 9007199254740993], [4, 4, 32767]], [[2, 3, 9007199254740992], [4, 4, 32767]]],
+                     "in_dtypes": ["uint64", "int64"], "out": "uint64", "agg": "min", "via": "cli", "mergebuf": 5, "spelling": "str",
+                     "agg_explicit": True, "field_explicit": False}
     yield "limits", {"values": [2 ** 31 - 1, 2 ** 31 - 1], "dtype": "int32"}
     for _ in range(160 if thorough else 36):
         n = rng.randint(1, 5)
